@@ -1507,8 +1507,8 @@ func (k *c05sChecker) check(c *c05sCase, family string) {
 			for s, ms := range l.Mounts {
 				for j, m := range ms {
 					d := &l.Devs[m.Dev]
+					// (the device's replication is left out: it shows in the per-class relations)
 					tu := c.Blocks[bi].State[m.Dev]
-					tu = tu*2 + d.Repl - 1
 					tu *= 2
 					if d.Archive {
 						tu++
@@ -1722,12 +1722,12 @@ func TestVerifC05Sweep(t *testing.T) {
 	if thorough {
 		packedBound = [4][7]int{
 			1: {1: 9, 2: 9},
-			2: {2: 9, 3: 5, 4: 3},
+			2: {2: 9, 3: 4, 4: 3},
 			3: {3: 4, 4: 3, 5: 2, 6: 1},
 		}
 		smallBound = [4][7]int{
 			1: {1: 3, 2: 1},
-			2: {2: 4, 3: 1, 4: 0},
+			2: {2: 3, 3: 1, 4: 0},
 			3: {3: 1, 4: -1, 5: -1, 6: -1},
 		}
 	}
